@@ -26,7 +26,11 @@ func sliceFromArray(arrValue reflect.Value) reflect.Value {
 	arrType := arrValue.Type()
 	sliceType := reflect.SliceOf(arrType.Elem())
 	sliceValue := reflect.MakeSlice(sliceType, arrType.Len(), arrType.Len())
-	reflect.Copy(sliceValue, arrValue)
+	// copy element-wise: reflect.Copy reads the wrong memory for a non-addressable
+	// one-element array of a pointer-shaped type (map, pointer), which is stored directly in the interface.
+	for i := range arrType.Len() {
+		sliceValue.Index(i).Set(arrValue.Index(i))
+	}
 
 	return sliceValue
 }
